@@ -70,6 +70,9 @@ def impl_apply(conts, op, held=None):
                     hold(arr)
             conts.append(D(d, copy=not op.get('nocopy')))
             return ('ok', ['cont', len(conts) - 1])
+        if k == 'freeze':
+            conts[op['d']][UNIVERSE[op['m']]].flags.writeable = False
+            return ('ok', ['unit'])
         if k == 'newShared':
             arr = conts[op['d']][UNIVERSE[op['m']]]
             hold(arr)
@@ -173,6 +176,19 @@ def sharing(conts):
     return res
 
 
+def clone(conts):
+    """deep copy of a list of containers that keeps sharing (memo) and the writeable flags (deepcopy resets them)"""
+    new = copy.deepcopy(conts)
+    for a, b in zip(conts, new):
+        for n in list(a.field_name_list):
+            try:
+                if not a[n].flags.writeable:
+                    b[n].flags.writeable = False
+            except KeyError:
+                pass
+    return new
+
+
 def cont_arrays(a):
     out = []
     for n in list(a.field_name_list):
@@ -212,10 +228,11 @@ class RefErr(Exception):
 
 class Cell:
     """one array object of the reference world (slots bound to the same Cell share their data)"""
-    __slots__ = ('a',)
+    __slots__ = ('a', 'ro')
 
     def __init__(self, a):
         self.a = a
+        self.ro = False      # ndarray.flags.writeable == False
 
 
 class RefTable:
@@ -266,6 +283,9 @@ def ref_apply(tabs, op, impl_out=None):
                 raise RefErr('value')
             tabs.append(RefTable(pairs, n))
             return ('ok', ['cont', len(tabs) - 1])
+        if k == 'freeze':
+            tabs[op['d']].cells[UNIVERSE[op['m']]].ro = True
+            return ('ok', ['unit'])
         if k == 'newShared':
             src, nm = tabs[op['d']], UNIVERSE[op['m']]
             if nm not in src.names:
@@ -291,7 +311,8 @@ def ref_apply(tabs, op, impl_out=None):
                 ln = len(new)
             if nm in t.names:
                 if k.startswith('appendField'):
-                    raise RefErr('key')
+                    # two independent guards may fail: either exception is fine
+                    raise RefErr('key|value' if ln != t.n else 'key')
                 if ln != t.n:
                     raise RefErr('value')
                 t.set([(m_, new if m_ == nm else c) for m_, c in t.kept()], t.n)
@@ -310,7 +331,10 @@ def ref_apply(tabs, op, impl_out=None):
             for o, n in op['convs']:
                 o, n = UNIVERSE[o], UNIVERSE[n]
                 if o in before and o in d:
-                    d[n] = d.pop(o)
+                    c_ = d.pop(o)
+                    if n in d:
+                        raise RefErr('key')      # renaming onto an existing field would lose that column
+                    d[n] = c_
                 elif op['must']:
                     raise RefErr('key')
             t.set(list(d.items()), t.n)
@@ -329,6 +353,8 @@ def ref_apply(tabs, op, impl_out=None):
             d = tabs[op['d']]
             if any(nm not in d.names for nm in t.names):
                 raise RefErr('key')
+            if any(t.cells[nm].ro for nm in t.names):
+                raise RefErr('idxval')            # ValueError: assignment destination is read-only
             sel = mksel(op['sel'])
             try:                                  # dry run on copies: a failing assignment writes nothing
                 for nm, a in t.pairs():
@@ -374,6 +400,194 @@ def ref_apply(tabs, op, impl_out=None):
         return ('err', e.kind)
 
 
+
+# ---------------------------------------------------------------------------------------------
+# independent row-oriented reference: ONE numpy structured array per table, value semantics.
+# Row-changing operations are row operations on that array (arr[sel], np.concatenate, arr[perm], arr[sel] = rows).
+
+class RowTable:
+    def __init__(self, pairs, n):
+        self.names = [p[0] for p in pairs]
+        self.n = int(n)
+        self.arr = np.empty(self.n, dtype=[(nm, np.asarray(a).dtype) for nm, a in pairs])
+        for nm, a in pairs:
+            self.arr[nm] = a
+
+    @classmethod
+    def of(cls, names, arr):
+        t = cls.__new__(cls)
+        t.names, t.arr, t.n = list(names), arr, len(arr)
+        return t
+
+    def pairs(self):
+        return [(nm, np.array(self.arr[nm], copy=True)) for nm in self.names]
+
+    def rows_for(self, names, dtype):
+        """my rows restricted / re-ordered to `names`, cast to the row dtype `dtype`"""
+        return RowTable([(nm, self.arr[nm]) for nm in names], self.n).arr.astype(dtype)
+
+    def snap(self):
+        return {'len': self.n, 'names': list(self.names),
+                'cols': [[nm, dtname(self.arr.dtype[nm]), ivals(self.arr[nm])] for nm in self.names],
+                'idx': list(range(self.n)), 'has': [n for n in UNIVERSE if n in self.names]}
+
+
+def row_apply(rows, op, impl_out=None, blocked=False, impl_ok=True):
+    """the row-store semantics of one operation on the list `rows` (entries None = no longer comparable: a write went
+    through an array shared with this table).  Returns ('ok', out) | ('err', kinds) | None (no opinion)."""
+    k = op['op']
+
+    def involved(*ids):
+        return any(rows[i] is None for i in ids)
+    try:
+        if k == 'new':
+            pairs = [(UNIVERSE[n], mkarr(col)) for n, col in op['cols']]
+            n = len(pairs[0][1]) if pairs else 0
+            if any(len(a) != n for _, a in pairs):
+                raise RefErr('value')
+            rows.append(RowTable(pairs, n))
+            return ('ok', ['cont', len(rows) - 1])
+        if k == 'freeze':
+            return ('ok', ['unit'])
+        if k == 'newShared':
+            if involved(op['d']):
+                if impl_ok:
+                    rows.append(None)
+                return None
+            src, nm = rows[op['d']], UNIVERSE[op['m']]
+            if nm not in src.names:
+                raise RefErr('key')
+            rows.append(RowTable([(nm, src.arr[nm])], src.n))
+            return ('ok', ['cont', len(rows) - 1])
+        c = op['c']
+        t = rows[c]
+        partner = op.get('d') if k in ('append', 'setSel', 'appendFieldFrom', 'setItemFrom') else None
+        if t is None or (partner is not None and rows[partner] is None):
+            if k in ('getSel', 'copy'):
+                if impl_ok:
+                    rows.append(None)
+            elif t is not None and impl_ok and k not in ('indices',):
+                # the outcome depends on a table that is no longer comparable
+                rows[c] = None
+            return None
+        if k == 'append':
+            d = rows[partner]
+            if any(nm not in d.names for nm in t.names):
+                raise RefErr('key')
+            if not t.names:
+                rows[c] = RowTable([], t.n + d.n)
+            else:
+                dt = np.dtype([(nm, np.result_type(t.arr.dtype[nm], d.arr.dtype[nm])) for nm in t.names])
+                rows[c] = RowTable.of(t.names, np.concatenate([t.arr.astype(dt), d.rows_for(t.names, dt)]))   # rows ++ rows'
+        elif k in ('appendField', 'setItem', 'appendFieldFrom', 'setItemFrom'):
+            nm = UNIVERSE[op['n']]
+            if k.endswith('From'):
+                m = UNIVERSE[op['m']]
+                if m not in rows[partner].names:
+                    raise RefErr('key')
+                new = np.array(rows[partner].arr[m], copy=True)
+            else:
+                new = mkarr(op['col'])
+            if nm in t.names:
+                if k.startswith('appendField'):
+                    raise RefErr('key|value' if len(new) != t.n else 'key')
+                if len(new) != t.n:
+                    raise RefErr('value')
+                rows[c] = RowTable([(m_, new if m_ == nm else a) for m_, a in t.pairs()], t.n)
+            else:
+                if len(new) != t.n:
+                    raise RefErr('value')
+                rows[c] = RowTable(t.pairs() + [(nm, new)], t.n)
+        elif k == 'removeField':
+            nm = UNIVERSE[op['n']]
+            if nm not in t.names:
+                raise RefErr('key')
+            rows[c] = RowTable([p for p in t.pairs() if p[0] != nm], t.n)
+        elif k == 'rename':
+            before, d = list(t.names), dict(t.pairs())
+            for o, n in op['convs']:
+                o, n = UNIVERSE[o], UNIVERSE[n]
+                if o in before and o in d:
+                    a = d.pop(o)
+                    if n in d:
+                        raise RefErr('key')
+                    d[n] = a
+                elif op['must']:
+                    raise RefErr('key')
+            rows[c] = RowTable(list(d.items()), t.n)       # same rows under renamed fields
+        elif k == 'tidyUp':
+            keep = [UNIVERSE[n] for n in op['keep']]
+            rows[c] = RowTable([p for p in t.pairs() if p[0] in keep], t.n)
+        elif k == 'getSel':
+            if not t.names:            # documented edge (outside "1..5 fields"): no column, nothing is indexed, length 0
+                rows.append(RowTable([], 0))
+                return ('ok', ['cont', len(rows) - 1])
+            try:
+                sub = t.arr[mksel(op['sel'])]                                  # rows gathered by the indices
+            except (IndexError, ValueError) as e:
+                raise RefErr(errkind(e, k))
+            rows.append(RowTable.of(t.names, sub) if t.names else RowTable([], 0))
+            return ('ok', ['cont', len(rows) - 1])
+        elif k == 'setSel':
+            d = rows[partner]
+            if any(nm not in d.names for nm in t.names):
+                raise RefErr('key')
+            if blocked:
+                raise RefErr('idxval')
+            new = t.arr.copy()
+            try:
+                if t.names:
+                    new[mksel(op['sel'])] = d.rows_for(t.names, t.arr.dtype)   # exactly the selected rows are replaced
+                # (no column: nothing is indexed, documented edge)
+            except (IndexError, ValueError) as e:
+                raise RefErr(errkind(e, k))
+            rows[c] = RowTable.of(t.names, new)
+        elif k == 'sortBy':
+            nm = UNIVERSE[op['n']]
+            if nm not in t.names:
+                raise RefErr('key')
+            perm = impl_out if impl_out is not None else ivals(np.argsort(t.arr[nm], kind='stable'))
+            if sorted(perm) != list(range(t.n)):
+                raise RefErr('perm')
+            new = t.arr[np.array(perm, dtype=np.int64)]                       # a permutation of the rows …
+            if t.n and np.any(new[nm][1:] < new[nm][:-1]):                    # … sorted by the key
+                raise RefErr('perm')
+            rows[c] = RowTable.of(t.names, new)
+            return ('ok', ['idxs', list(perm)])
+        elif k == 'copy':
+            keep = op.get('keep')
+            pairs = [p for p in t.pairs() if keep is None or p[0] in [UNIVERSE[n] for n in keep]]
+            rows.append(RowTable(pairs, t.n if pairs else 0))                    # the same rows
+            return ('ok', ['cont', len(rows) - 1])
+        elif k == 'setDtype':
+            nm = UNIVERSE[op['n']]
+            if nm not in t.names:
+                raise RefErr('key')
+            rows[c] = RowTable([(m, a.astype(NP_DT[op['dt']]) if m == nm else a) for m, a in t.pairs()], t.n)
+        elif k == 'convert':
+            conv = {NP_DT[o]: NP_DT[n] for o, n in op['convs']}
+            exc = [UNIVERSE[n] for n in op['exc']]
+            rows[c] = RowTable([(m, a.astype(conv[a.dtype]) if (m not in exc and a.dtype in conv) else a) for m, a in t.pairs()], t.n)
+        elif k == 'indices':
+            return ('ok', ['idxs', list(range(t.n))])
+        else:
+            raise AssertionError(k)
+        return ('ok', ['unit'])
+    except RefErr as e:
+        return ('err', e.kind)
+
+
+def written_shared(tabs, c):
+    """containers that hold an array object written by a set_selection on container c and bound in more than one slot"""
+    out = set()
+    for nm in tabs[c].names:
+        cell = tabs[c].cells[nm]
+        holders = [ci for ci, t in enumerate(tabs) for m in t.names if t.cells[m] is cell]
+        if len(holders) > 1:
+            out.update(holders)
+    return out
+
+
 # ---------------------------------------------------------------------------------------------
 # model side: request lines and parsing of the dumps of Driver/C16.lean
 
@@ -393,6 +607,8 @@ def op_line(op, perm=None):
         return 'new ' + ('+'.join(cs) if cs else '-')
     if k == 'newShared':
         return 'newShared %d %d' % (op['d'], op['m'])
+    if k == 'freeze':
+        return 'freeze %d %d' % (op['d'], op['m'])
     c = op['c']
     if k in ('appendFieldFrom', 'setItemFrom'):
         return '%s %d %d %d %d' % (k, c, op['n'], op['d'], op['m'])
@@ -493,11 +709,23 @@ PUBLIC_KEYS = ('len', 'names', 'cols', 'idx', 'has')
 
 
 def snap_diff(got, want):
-    """first difference between two public snapshots (None if equal)"""
+    """first difference between two public snapshots (None if equal).  The field list is compared as a set and the
+    columns by name: the property asks for an up-to-date field list, not for a particular order (the order is checked
+    separately: operations that do not rename keep the relative order of the surviving fields)."""
     for k in PUBLIC_KEYS:
-        if got[k] != want[k]:
+        g, w = got[k], want[k]
+        if k in ('names', 'has'):
+            g, w = sorted(g), sorted(w)
+        elif k == 'cols':
+            g, w = sorted(g, key=lambda c: c[0]), sorted(w, key=lambda c: c[0])
+        if g != w:
             return k
     return None
+
+
+def err_match(impl_kind, want_kind):
+    """want_kind may name several acceptable exception classes ('key|value')"""
+    return impl_kind in want_kind.split('|')
 
 
 def diff_mode(key, got):
